@@ -154,7 +154,7 @@ func main() {
 	sort.Strings(sites)
 	r.Assume = append(r.Assume,
 		"required number = the agreement count the configuration defines for the era (2/3 of the council; +1 where the rule says so); before the restriction height a repeated signer index is tolerated (legacy behaviour pinned by the repository's own test), an index that names no arbiter is not",
-		"a panic of the checker (out-of-range signer index before the restriction height) counts as 'not accepted' here; it is reported under C03",
+		"a panic of the checker (before the C03 repair: out-of-range signer index before the restriction height) counts as 'not accepted' here and is counted in checker_panics",
 		"part (a) judges SpecialContextCheck verdicts (signatures are verified later by the common path); part (b) uses fully signed transactions through CheckTransactionSanity/CheckTransactionContext, CheckDuplicateTx and TxPool.AppendToTxPoolWithoutEvent",
 		"ArbitratorsMock reports the current arbitrators as the cross-chain arbiters; the CRC arbitrators are set to the same keys")
 	r.Finish(evid.Coverage{
